@@ -55,6 +55,9 @@ type referenceTracker struct {
 	// updates that are being processed
 	updates ModelUpdates
 
+	// updates generated so far by the reference processing itself
+	referenceUpdates ModelUpdates
+
 	// references are the updated references by the set of updates processed
 	references database.References
 
@@ -93,7 +96,7 @@ func (rt *referenceTracker) processReferences(updates ModelUpdates) (ModelUpdate
 }
 
 func (rt *referenceTracker) processReferencesLoop(updates ModelUpdates) (ModelUpdates, error) {
-	referenceUpdates := ModelUpdates{}
+	referenceUpdates := &rt.referenceUpdates
 
 	// references can be transitive and deleting them can lead to further
 	// references having to be removed so loop until there are no updates to be
@@ -130,7 +133,7 @@ func (rt *referenceTracker) processReferencesLoop(updates ModelUpdates) (ModelUp
 		}
 	}
 
-	return referenceUpdates, nil
+	return *referenceUpdates, nil
 }
 
 // processModelUpdates keeps track of the updated references by a set of updates
@@ -539,8 +542,13 @@ func (rt *referenceTracker) getModel(table, uuid string) (model.Model, error) {
 		// model has been deleted
 		return nil, nil
 	}
-	// look for the model in the updates
-	model := rt.updates.GetModel(table, uuid)
+	// look for the model in the updates: those generated by earlier rounds of
+	// the reference processing first, they are the most recent
+	model := rt.referenceUpdates.GetModel(table, uuid)
+	if model != nil {
+		return model, nil
+	}
+	model = rt.updates.GetModel(table, uuid)
 	if model != nil {
 		return model, nil
 	}
@@ -559,7 +567,11 @@ func (rt *referenceTracker) getRow(table, uuid string) (*ovsdb.Row, error) {
 		return nil, nil
 	}
 	// look for the row in the updates
-	row := rt.updates.GetRow(table, uuid)
+	row := rt.referenceUpdates.GetRow(table, uuid)
+	if row != nil {
+		return row, nil
+	}
+	row = rt.updates.GetRow(table, uuid)
 	if row != nil {
 		return row, nil
 	}
